@@ -73,7 +73,7 @@ class Driver(Device, metaclass=DriverMeta):
     @classmethod
     def _all_group_definitions(cls) -> Dict[str, GroupDefinition]:
         groups: Dict[str, GroupDefinition] = {}
-        for base in cls.__bases__:
+        for base in reversed(cls.__mro__[1:]):
             if issubclass(base, Driver) or base is Driver:
                 groups = {**groups, **cast(Type[Driver], base)._group_definitions}
         for k, v in cls._group_definitions.items():
